@@ -226,6 +226,9 @@ def classes(draw, lang, eff, names, depth=0):
             cls["nested"] = [draw(classes(lang, eff, names, depth + 1))]
         if depth == 0 and draw(st.integers(0, 5)) == 0:
             cls["in_func"] = True
+        elif depth == 0 and draw(st.integers(0, 3)) == 0:
+            # the class statement sits in a branch of a compound statement (conditional definitions, import fallbacks)
+            cls["branch"] = draw(st.sampled_from(["if", "else", "elif", "try", "except", "try-else", "finally", "case", "with", "for-else"]))
     if lang in ("ts", "js"):
         cls["export"] = draw(st.booleans())
     if lang == "ts":
